@@ -20,6 +20,8 @@ MUTANTS = [
     {'name': 'gumbel-density-sign', 'rule': 'D4.values', 'file': GU, 'old': "            d = 1 + (self.theta - 1) * np.power(tmp, -1.0 / self.theta)", 'new': "            d = -1 - (self.theta - 1) * np.power(tmp, -1.0 / self.theta)"},
     {'name': 'clayton-h-negated', 'rule': 'D4.values', 'file': C, 'old': "        return A * h\n", 'new': "        return -A * h\n"},
     {'name': 'gumbel-h-complement', 'rule': 'D4.values', 'file': GU, 'old': "            return p1 * p2 * p3 / V\n", 'new': "            return -p1 * p2 * p3 / V\n"},
+    {'name': 'frank-h-shortcut-reactivated', 'rule': 'D5.shortcut', 'file': F, 'old': "        if self.theta == 0:\n            return V\n\n        else:\n            num = self._g(U) * self._g(V) + self._g(U)", 'new': "        if np.isclose(self.theta, 0, atol=1e-3):\n            return V\n\n        else:\n            num = self._g(U) * self._g(V) + self._g(U)"},
+    {'name': 'frank-pdf-shortcut-reactivated', 'rule': 'D5.shortcut', 'file': F, 'old': "        if self.theta == 0:\n            return U * V\n\n        else:\n            num = (-self.theta", 'new': "        if abs(self.theta) < 1e-6:\n            return U * V\n\n        else:\n            num = (-self.theta"},
 ]
 REWRITES = [
     {'name': 'frank-pdf-commuted', 'file': F, 'old': "aux = self._g(U) * self._g(V) + self._g(1)", 'new': "aux = self._g(1) + self._g(V) * self._g(U)"},
